@@ -21,9 +21,18 @@ class Result:
         self.detail = detail
 
 
+RLIMIT_PER_MS = int(os.environ.get("PYVC_RLIMIT_PER_MS", "2000"))
+
+
+def _budget(s, timeout_ms):
+    """deterministic resource limit (does not depend on machine load) + generous wall-clock backstop"""
+    s.set("rlimit", int(timeout_ms) * RLIMIT_PER_MS)
+    s.set("timeout", int(timeout_ms) * 5 + 5000)
+
+
 def _mk_solver(timeout_ms, nonlinear):
     s = z3.Solver()
-    s.set("timeout", timeout_ms)
+    _budget(s, timeout_ms)
     return s
 
 
@@ -82,6 +91,34 @@ def purify(formulas):
     return fs
 
 
+def _abstract_nonreal(fs):
+    found = {}
+
+    def walk(e, seen):
+        k = e.get_id()
+        if k in seen:
+            return
+        seen.add(k)
+        if z3.is_app(e):
+            d = e.decl()
+            if d.kind() == z3.Z3_OP_TO_REAL or (d.kind() == z3.Z3_OP_UNINTERPRETED and e.num_args() > 0
+                                                 and e.sort() == z3.RealSort()):
+                found[k] = e
+                return
+            for c in e.children():
+                walk(c, seen)
+    seen = set()
+    for f in fs:
+        walk(f, seen)
+    if not found:
+        return fs
+    subs = []
+    for t in found.values():
+        _pur_counter[0] += 1
+        subs.append((t, z3.Real("abs!r%d" % _pur_counter[0])))
+    return [z3.substitute(f, *subs) for f in fs]
+
+
 def _pure_nra(fs):
     """no uninterpreted functions, integers or quantifiers left?"""
     seen = set()
@@ -133,9 +170,24 @@ def _check_level(formulas, extra_axioms, level, timeout_ms, want_model, use_cvc5
     tc = {}
     if any(_has_trans(f, tc) for f in allf):
         allf = purify(allf)
+    if not _pure_nra(allf):
+        # real abstraction: integer-valued real subterms (ToReal(..)) and applications of other
+        # uninterpreted real functions become fresh real constants; hypotheses that still mention
+        # integers are dropped.  Fewer hypotheses: `unsat` stays sound.
+        abst = [f for f in _abstract_nonreal(allf) if _pure_nra([f])]
+        if abst:
+            sa = z3.SolverFor("QF_NRA")
+            _budget(sa, max(1000, timeout_ms // 2))
+            for f in abst:
+                sa.add(f)
+            try:
+                if sa.check() == z3.unsat:
+                    return Result("unsat", "z3(QF_NRA,purified,real-abstraction,axioms-L%d)" % level, time.time() - t0)
+            except z3.Z3Exception:
+                pass
     if _pure_nra(allf):
         s = z3.SolverFor("QF_NRA")
-        s.set("timeout", timeout_ms)
+        _budget(s, timeout_ms)
         backend = "z3(QF_NRA,purified,axioms-L%d)" % level
     else:
         s = _mk_solver(timeout_ms, True)
